@@ -16,7 +16,13 @@ ACTSETS = {
     'tup': lambda: [(1, 0), (0, 1)],
     'map': lambda: [{'x': 1}, {'y': 2}],
     'bin': lambda: [0, 1],
+    # sets that do / do not contain 0 or 1, as ints and as floats (SafeLearner converts 0/1 and caches per action set)
+    'zo3': lambda: [0, 1, 2],
+    'hi3': lambda: [3, 4, 5],
+    'flt': lambda: [0.0, 0.5, 1.0],
+    'fhi': lambda: [2.5, 3.5],
 }
+BASE_ACTSETS = ['int', 'str', 'tup', 'map', 'bin']
 CTX_KINDS = ['dense', 'none', 'scalar', 'sparse', 'absent']
 RWD_KINDS = ['list', 'discrete', 'binary', 'callable']
 
@@ -48,7 +54,7 @@ def plain_interactions(env):
     out = []
     for i in range(env['n']):
         it = {}
-        if env['ctx'] != 'absent': it['context'] = ctx_value(env['ctx'], i)
+        if env['ctx'] != 'absent': it['context'] = ctx_value(env['ctx'], env['cseq'][i] if env.get('cseq') else i)
         if env['acts'] is not None:
             it['actions'] = ACTSETS[env['acts'][i]]()
             if env['rwd']: it['rtable'] = reward_table(env['rwd'], i, len(it['actions']))
